@@ -30,6 +30,8 @@ try:
         print(p, "exit", c.returncode, [x.get("line", x) if isinstance(x, dict) else x for x in (replays or lines)][:3])
 finally:
     subprocess.run(["git", "-C", "/repo", "checkout", "--", "."])
+    # tables regenerated from the seeded code must not stay behind
+    subprocess.run(["git", "-C", "/verif", "checkout", "--", "lean/SradModel/Generated"])
 meta.setdefault("detection", {}).update(results)
 meta["detected"] = any(v["exit"] == 1 for v in meta["detection"].values())
 json.dump(meta, open(os.path.join(d, "meta.json"), "w"), indent=1)
